@@ -48,7 +48,7 @@ def strip_comments(src):
             i = n if j < 0 else j          # keep the newline
         elif src.startswith("/*", i):
             j = src.find("*/", i + 2)
-            out.append(" ")
+            out.append(" " + "\n" * src.count("\n", i, n if j < 0 else j))     # line numbers stay those of the file
             i = n if j < 0 else j + 2
         elif c == '"' or c == "'":
             j = i + 1
@@ -722,13 +722,19 @@ def compare_bodies(repo_root, model_exe, tmpdir, seed=0, per_rule=10):
     out = [l[2:] for l in p.stdout.split("\n") if l.startswith("O ")]
     if p.returncode != 0 or len(out) != len(cases):
         res["untranslatable"].append("model driver: rc=%s, %d answers for %d instances: %s" % (p.returncode, len(out), len(cases), p.stderr[-300:])); return res
+    bad = []
     for (rule, args), a, b in zip(cases, mine, out):
         if a is None: continue
         res["instances"] += 1
-        if a != b and len(res["mismatches"]) < 12:
-            res["mismatches"].append({"rule": "%s<%s> (expression_optimizers.hpp:%d)" % (rule.name, rule.pattern, rule.line), "instance": _sx(model_call(rule.name, args)),
+        if a != b: bad.append((rule, args, a, b))
+    # smallest instances first: there the rule that was dispatched first is (most likely) the one that differs
+    bad.sort(key=lambda x: len(_sx(model_call(x[0].name, x[1]))))
+    for rule, args, a, b in bad:
+        if len(res["mismatches"]) < 12:
+            sel, _ = table.select(rule.name, args)
+            res["mismatches"].append({"rule": "%s<%s> (expression_optimizers.hpp:%d)" % (sel.name, sel.pattern, sel.line), "instance": _sx(model_call(rule.name, args)),
                                       "translated_from_cxx": a, "extracted_model": b})
-        elif a != b: res["mismatches"].append(None)
+        else: res["mismatches"].append(None)
     res["not_exercised"] = [str(r) for r in rules if r.name in MODEL_CALL and not r.fired]
     res["fired"] = {str(r): r.fired for r in rules}
     res["ok"] = not res["mismatches"] and not res["untranslatable"] and not res["not_exercised"] and res["instances"] > 0
